@@ -12,6 +12,9 @@ CLAIMED = {
  "C07": ("interprocedural lock-state dataflow (go/cfg) with command-table join",
          "lock discipline: every write of a Server.mu-guarded location runs exclusively and every read at least shared, on every path from every goroutine root; acquire/release pairing in every function; nobody releases a caller's lock",
          "linearizability of actual histories (a property of executions)"),
+ "C15": ("command-table extraction and gate-shape matching; effect analysis; dominance on go/cfg",
+         "the gate matrix is structural: every write-class arm (and eval/evalsha) carries the follower and read-only gates before dispatch; every object-reading handler is behind the catching-up gate; the three script class switches agree with each other and with the lock table; the authentication test dominates the lock switch with a fixed exemption set; authd is only set on the password-equality edge; the protected-mode test precedes the first read; every documented command has a dispatch arm",
+         "the final reply texts and the config setters themselves (value-level)"),
 }
 
 NOT_APPLICABLE = {
